@@ -435,8 +435,8 @@ class PythonRegex(regex.Regex):
         self._python_regex = "".join(regex_temp)
 
     def _preprocess_empty_alternatives(self):
-        """ An empty alternative or group, as in (a|), (|a) or (), matches the
-        empty word """
+        """ An empty alternative or group, as in (a|), (|a) or (), and the
+        empty pattern match the empty word """
         regex_temp = []
         for symbol in self._python_regex:
             if self._should_escape_next_symbol(regex_temp):
@@ -446,7 +446,7 @@ class PythonRegex(regex.Regex):
                     (symbol in "|)" and regex_temp and regex_temp[-1] in "(|"):
                 regex_temp.append("$")
             regex_temp.append(symbol)
-        if regex_temp and regex_temp[-1] == "|":
+        if not regex_temp or regex_temp[-1] == "|":
             regex_temp.append("$")
         self._python_regex = "".join(regex_temp)
 
